@@ -472,6 +472,21 @@ Definition cmap14_map_variant (sels : list Sel) (c sel : Z) : option (option Z) 
 Fixpoint assoc (c : Z) (l : list pair) : option Z :=
   match l with [] => None | (k, v) :: t => if k =? c then Some v else assoc c t end.
 
+(* what a variation-selector table encodes, by linear inspection (specification side) *)
+Definition sel_of (r : Sel) : Z := fst (fst r).
+Definition in_range (c : Z) (r : Z * Z) : bool := (fst r <=? c) && (c <=? fst r + snd r).
+Definition cmap14_spec (sels : list Sel) (c sel : Z) : option (option Z) :=
+  match find (fun r => sel_of r =? sel) sels with
+  | None => None                                             (* no record for this selector *)
+  | Some (_, dflt, nondflt) =>
+      if (match dflt with Some ranges => existsb (in_range c) ranges | None => false end)
+      then Some None                                         (* use the default glyph *)
+      else match nondflt with
+           | None => None
+           | Some maps => match assoc c maps with Some g => Some (Some g) | None => None end
+           end
+  end.
+
 (* ================================================================================ *)
 (*              correspondence case format (harness/src/bin/c08.rs)                 *)
 (* ================================================================================ *)
@@ -535,8 +550,10 @@ Definition check_case (c : Case) : bool :=
   | CRead4 t lookups iter => lookups_ok (cmap4_map t) lookups && plist_eqb (cmap4_iter t) iter
   | CRead12 g lookups limits iter => lookups_ok (cmap12_map g) lookups && plist_eqb (cmap12_iter limits g) iter
   | CVar14 sels lookups =>
-      forallb (fun q => match cmap14_map_variant sels (fst (fst q)) (snd (fst q)), snd q with
+      let same (x y : option (option Z)) := match x, y with
                         | None, None => true
                         | Some a, Some b => oz_eqb a b
-                        | _, _ => false end) lookups
+                        | _, _ => false end in
+      forallb (fun q => same (cmap14_map_variant sels (fst (fst q)) (snd (fst q))) (snd q)
+                        && same (cmap14_spec sels (fst (fst q)) (snd (fst q))) (snd q)) lookups
   end.
